@@ -6,7 +6,7 @@
    exactly these ways, in order; hence (ids unique) the feature keys are pairwise different IF AND
    ONLY IF no way is adopted twice. *)
 From Coq Require Import ZArith String List Bool Lia.
-From Verif Require Import C17.Model C17.Mputil C17.Spec C17.Proofs C17.ProofsGeom.
+From Verif Require Import C17.Model C17.Mputil C17.Spec C17.ProofsPacked C17.Proofs C17.ProofsGeom.
 Import ListNotations.
 Open Scope Z_scope.
 Open Scope list_scope.
@@ -119,9 +119,11 @@ Section Dup.
   Lemma ring_of_invalid o s : ring_invalid (ring_of o [s]) = ring_invalid (sg_line s).
   Proof. destruct (Hring o s) as [-> | ->]; [reflexivity|apply ring_invalid_rev]. Qed.
 
-  (* the shape of buildPolygon's result as far as way-typed features go *)
-  Lemma poly_result_way_keys o d r :
-    way_keys (olist (snd (poly_result o d r))) =
+  (* the shape of buildPolygon's result as far as way-typed features go; [poly_result_with ...
+     mk_feature] is buildPolygon with the plain identity tail, equal to the model's on relations
+     in the packed range (Proofs.poly_result_exact) *)
+  Lemma poly_result_x_way_keys o d r :
+    way_keys (olist (snd (poly_result_with join ring_of mk_feature o d r))) =
     match flat_map ps_outer (map (poly_step d (r_tags r)) (r_members r)),
           fold_right Z.add 0 (map ps_cnt (map (poly_step d (r_tags r)) (r_members r))) =? 1 with
     | [(s, w)], true =>
@@ -129,15 +131,13 @@ Section Dup.
         else if has_interesting (r_tags r) (Some old_style_ignore) then [] else [w_id w]
     | _, _ => []
     end.
-  Proof. unfold Model.poly_result. break_match; try reflexivity; cbn in *; try discriminate; try congruence. Qed.
+  Proof. unfold Model.poly_result_with. break_match; try reflexivity; cbn in *; try discriminate; try congruence. Qed.
 
-  Lemma rel_result_way_keys o d r : way_keys (olist (snd (rel_result o d r))) = adopts d r.
+  Lemma poly_x_adopts o d r :
+    is_mp r = true -> way_keys (olist (snd (poly_result_with join ring_of mk_feature o d r))) = adopts d r.
   Proof.
-    unfold Model.rel_result, adopts, is_mp.
-    destruct (String.eqb (tag_find (r_tags r) "type") "route") eqn:Hroute; cbn [negb andb].
-    { unfold route_result. break_match; reflexivity. }
-    destruct (String.eqb _ "multipolygon" || String.eqb _ "boundary"); cbn [andb]; [|reflexivity].
-    rewrite poly_result_way_keys, outer_of_members, cnt_of_members. fold (outer_members r).
+    intros Hmp. unfold adopts. rewrite Hmp. cbn [andb].
+    rewrite poly_result_x_way_keys, outer_of_members, cnt_of_members. fold (outer_members r).
     destruct (outer_members r) as [|m [|m2 rest]] eqn:Hom.
     - cbn. destruct (negb _); reflexivity.
     - assert (Hm : is_outer_way m = true).
@@ -158,20 +158,39 @@ Section Dup.
       rewrite Hc. destruct (negb _); break_match; reflexivity.
   Qed.
 
-  (* the way-typed features of the relation pass are exactly the adopted ways, in order *)
-  Theorem adopted_ways_exact o d : way_keys (rel_features join ring_of o d) = flat_map (adopts d) (relations d).
+  Lemma rel_result_way_keys o d r :
+    (is_mp r = true -> poly_in_range r = true) ->
+    way_keys (olist (snd (rel_result o d r))) = adopts d r.
   Proof.
+    intros Hrange. unfold Model.rel_result.
+    destruct (String.eqb (tag_find (r_tags r) "type") "route") eqn:Hroute.
+    { unfold adopts, is_mp. rewrite Hroute. cbn [negb andb]. unfold route_result. break_match; reflexivity. }
+    destruct (String.eqb _ "multipolygon" || String.eqb _ "boundary") eqn:Hm.
+    - assert (Hmp : is_mp r = true) by (unfold is_mp; rewrite Hroute, Hm; reflexivity).
+      rewrite (poly_result_exact join ring_of o d r (Hrange Hmp)). exact (poly_x_adopts o d r Hmp).
+    - unfold adopts, is_mp. rewrite Hroute, Hm. reflexivity.
+  Qed.
+
+  (* the way-typed features of the relation pass are exactly the adopted ways, in order *)
+  Theorem adopted_ways_exact o d :
+    poly_ids_ok d = true ->
+    way_keys (rel_features join ring_of o d) = flat_map (adopts d) (relations d).
+  Proof.
+    intros Hok. assert (H : forall r, In r (relations d) -> is_mp r = true -> poly_in_range r = true)
+      by (intros r Hr; exact (poly_ids_ok_rel d r Hok Hr)). clear Hok.
     unfold Model.rel_features, way_keys. induction (relations d) as [|r l IH]; [reflexivity|].
-    cbn [flat_map]. rewrite flat_map_app, IH. f_equal. apply rel_result_way_keys.
+    cbn [flat_map]. rewrite flat_map_app, IH by (intros x Hx; apply H; right; exact Hx).
+    f_equal. apply rel_result_way_keys. apply H. left. reflexivity.
   Qed.
 
   (* every relation feature has the relation's key or is an adopted way *)
   Lemma rel_result_key_exact o d r f :
+    (is_mp r = true -> poly_in_range r = true) ->
     snd (rel_result o d r) = Some f ->
     fkey f = (TRel, r_id r) \/ (exists x, adopts d r = [x] /\ fkey f = (TWay, x)).
   Proof.
-    intros Hf. pose proof (rel_result_way_keys o d r) as Hk. rewrite Hf in Hk. cbn in Hk.
-    destruct (rel_result_key join ring_of o d r f Hf) as [H|[x [_ H]]]; [left; exact H|].
+    intros Hin Hf. pose proof (rel_result_way_keys o d r Hin) as Hk. rewrite Hf in Hk. cbn in Hk.
+    destruct (rel_result_key join ring_of o d r f Hin Hf) as [H|[x [_ H]]]; [left; exact H|].
     right. exists x. split; [|exact H]. unfold fkey in H. injection H as Ht Hr.
     rewrite Ht, Hr in Hk. cbn in Hk. symmetry. exact Hk.
   Qed.
@@ -190,11 +209,12 @@ Section Dup.
 
   (* the finding, as an equivalence *)
   Theorem duplicate_feature_iff o d :
+    poly_ids_ok d = true ->
     ids_unique d ->
     (NoDup (map fkey (convert o d)) <-> NoDup (flat_map (adopts d) (relations d))).
   Proof.
-    intros [Hn [Hw Hr]]. split.
-    - intros H. rewrite <- (adopted_ways_exact o d). apply way_keys_nodup.
+    intros Hok [Hn [Hw Hr]]. split.
+    - intros H. rewrite <- (adopted_ways_exact o d Hok). apply way_keys_nodup.
       unfold Model.convert in H. rewrite map_app in H.
       clear -H. induction (map fkey (rel_features join ring_of o d)) as [|k l IH]; [constructor|].
       cbn in H. inversion H as [|? ? Hk Hd]; subst. constructor; [|exact (IH Hd)].
@@ -203,8 +223,8 @@ Section Dup.
       apply NoDup_app_intro; [|apply NoDup_app_intro|].
       + unfold Model.rel_features. apply NoDup_keys_olist; [exact (NoDup_map_inv _ _ Hr)|].
         intros r s x y Hrl Hsl Hx Hy Hk.
-        destruct (rel_result_key_exact _ _ _ _ Hx) as [Kx|[wx [Cx Kx]]];
-          destruct (rel_result_key_exact _ _ _ _ Hy) as [Ky|[wy [Cy Ky]]]; rewrite Kx, Ky in Hk.
+        destruct (rel_result_key_exact _ _ _ _ (poly_ids_ok_rel d r Hok Hrl) Hx) as [Kx|[wx [Cx Kx]]];
+          destruct (rel_result_key_exact _ _ _ _ (poly_ids_ok_rel d s Hok Hsl) Hy) as [Ky|[wy [Cy Ky]]]; rewrite Kx, Ky in Hk.
         * injection Hk as Hid. exact (NoDup_map_inj_in r_id _ _ _ Hr Hrl Hsl Hid).
         * discriminate.
         * discriminate.
@@ -246,12 +266,12 @@ Section Dup.
         apply in_app_or in Hg. destruct Hg as [Hg|Hg].
         * destruct (way_features_in _ _ _ _ _ Hg) as [w [Hwl [Hskip Hwf]]].
           pose proof (way_feature_key _ _ _ _ Hwf) as Kg. rewrite Hk in Kg.
-          pose proof (rel_result_adopts_skips _ _ _ _ _ _ _ Hrf Kg) as Hin.
+          pose proof (rel_result_adopts_skips _ _ _ _ _ _ _ (poly_ids_ok_rel d r Hok Hrl) Hrf Kg) as Hin.
           assert (Hs : In (w_id w) (skippable join ring_of o d)).
           { unfold Model.skippable. apply in_flat_map. exists r. split; assumption. }
           apply memZ_In in Hs. congruence.
         * destruct (node_features_in _ _ _ Hg) as [n [_ [_ Hng]]].
           pose proof (node_feature_key _ _ _ _ Hng) as Kg. rewrite Hk in Kg.
-          apply (rel_feature_type _ _ _ _ _ Hf). unfold fkey in Kg. injection Kg as Kt _. exact Kt.
+          apply (rel_feature_type _ _ _ _ _ Hok Hf). unfold fkey in Kg. injection Kg as Kt _. exact Kt.
   Qed.
 End Dup.
